@@ -61,14 +61,16 @@ def evaluate(mod, lines, wd, tag, env=None):
         impl_lines = lines
     impl = run_sharded(HARNESS_BIN, impl_lines, wd, tag + "-impl", timeout=mod_timeout(mod), env=e,
                        shards=getattr(mod, "IMPL_SHARDS", NPROC), per_shard=getattr(mod, "PER_SHARD", 64))
-    if getattr(mod, "RERUN_AFTER_DEATH", False):
+    if getattr(mod, "RERUN_AFTER_DEATH", True):
         # a case that kills the executor takes the rest of its shard with it: the first dead case is
         # the culprit (ABORT), the ones behind it are run again
         rounds = 0
-        while rounds < 40 and any(x.startswith("EXECUTOR-DIED") for x in impl):
+        while rounds < 6 and any(x.startswith("EXECUTOR-DIED") for x in impl):
             rounds += 1
             dead = [i for i, x in enumerate(impl) if x.startswith("EXECUTOR-DIED")]
-            firsts = [i for i in dead if i == 0 or not impl[i - 1].startswith("EXECUTOR-DIED")]
+            # (a case reported as HANG-IN-CASE by the harness watchdog is itself the culprit of the exit)
+            firsts = [i for i in dead if (i == 0 or not impl[i - 1].startswith("EXECUTOR-DIED"))
+                      and not (i > 0 and impl[i - 1].startswith("HANG-IN-CASE"))]
             for i in firsts:
                 impl[i] = "ABORT " + impl[i]
             rest = [i for i in dead if i not in firsts]
